@@ -246,7 +246,7 @@ func c16Templates() []c16Template {
 		}})
 	// T3: attribute keys: string / number / bool literals, reference, combinations (all written orders)
 	paddr := lang.Address{lang.RootStep{Name: "p"}, lang.AttrStep{Name: "one"}}
-	ts = append(ts, c16Template{id: "attrs", block: "data", markers: []string{"m_k1", "m_num", "m_flag", "m_prov", "m_k1num", "m_all3"},
+	ts = append(ts, c16Template{id: "attrs", block: "data", markers: []string{"m_k1", "m_num", "m_flag", "m_prov", "m_k1num", "m_all3", "m_neg", "m_frac", "m_false"},
 		mk: func() *schema.BodySchema {
 			return refDecl(&schema.BodySchema{Blocks: map[string]*schema.BlockSchema{"data": {
 				Labels: []*schema.LabelSchema{{Name: "name"}},
@@ -257,9 +257,13 @@ func c16Templates() []c16Template {
 					"prov": {Constraint: schema.Reference{OfScopeId: "sp"}, IsOptional: true, IsDepKey: true},
 				}},
 				DependentBody: map[schema.SchemaKey]*schema.BodySchema{
-					depKey(nil, []schema.AttributeDependent{attrDep("kind", cty.StringVal("k1"))}):                                                                 mkMarker("m_k1", true, nil),
-					depKey(nil, []schema.AttributeDependent{attrDep("num", cty.NumberIntVal(1))}):                                                                  mkMarker("m_num", false, nil),
-					depKey(nil, []schema.AttributeDependent{attrDep("flag", cty.True)}):                                                                            mkMarker("m_flag", true, nil),
+					depKey(nil, []schema.AttributeDependent{attrDep("kind", cty.StringVal("k1"))}): mkMarker("m_k1", true, nil),
+					depKey(nil, []schema.AttributeDependent{attrDep("num", cty.NumberIntVal(1))}):  mkMarker("m_num", false, nil),
+					depKey(nil, []schema.AttributeDependent{attrDep("flag", cty.True)}):            mkMarker("m_flag", true, nil),
+					// numbers the native syntax writes with an operator (-1 is a negation), fractions, the other bool
+					depKey(nil, []schema.AttributeDependent{attrDep("num", cty.NumberIntVal(-1))}):                                                                 mkMarker("m_neg", false, nil),
+					depKey(nil, []schema.AttributeDependent{attrDep("num", cty.NumberFloatVal(1.5))}):                                                              mkMarker("m_frac", false, nil),
+					depKey(nil, []schema.AttributeDependent{attrDep("flag", cty.False)}):                                                                           mkMarker("m_false", false, nil),
 					depKey(nil, []schema.AttributeDependent{attrDepAddr("prov", paddr)}):                                                                           mkMarker("m_prov", true, nil),
 					depKey(nil, []schema.AttributeDependent{attrDep("kind", cty.StringVal("k1")), attrDep("num", cty.NumberIntVal(1))}):                            mkMarker("m_k1num", true, nil),
 					depKey(nil, []schema.AttributeDependent{attrDep("num", cty.NumberIntVal(1)), attrDep("kind", cty.StringVal("k1")), attrDep("flag", cty.True)}): mkMarker("m_all3", true, nil),
@@ -272,6 +276,11 @@ func c16Templates() []c16Template {
 			{labels: []string{"n"}, attrs: []c16Attr{{"prov", `p.one`, schema.ExpressionValue{Address: paddr}}}, marker: "m_prov", docs: true, keyAttrs: []string{"prov"}},
 			{labels: []string{"n"}, attrs: []c16Attr{{"kind", `"k1"`, sv("k1")}, {"num", `1`, schema.ExpressionValue{Static: cty.NumberIntVal(1)}}}, marker: "m_k1num", docs: true, keyAttrs: []string{"kind", "num"}},
 			{labels: []string{"n"}, attrs: []c16Attr{{"kind", `"k1"`, sv("k1")}, {"num", `1`, schema.ExpressionValue{Static: cty.NumberIntVal(1)}}, {"flag", `true`, schema.ExpressionValue{Static: cty.True}}}, marker: "m_all3", docs: true, keyAttrs: []string{"kind", "num", "flag"}},
+			{labels: []string{"n"}, attrs: []c16Attr{{"num", `-1`, schema.ExpressionValue{Static: cty.NumberIntVal(-1)}}}, marker: "m_neg", keyAttrs: []string{"num"}},
+			{labels: []string{"n"}, attrs: []c16Attr{{"num", `(-1)`, schema.ExpressionValue{Static: cty.NumberIntVal(-1)}}}, marker: "m_neg", keyAttrs: []string{"num"}},
+			{labels: []string{"n"}, attrs: []c16Attr{{"num", `(1)`, schema.ExpressionValue{Static: cty.NumberIntVal(1)}}}, marker: "m_num", keyAttrs: []string{"num"}},
+			{labels: []string{"n"}, attrs: []c16Attr{{"num", `1.5`, schema.ExpressionValue{Static: cty.NumberFloatVal(1.5)}}}, marker: "m_frac", keyAttrs: []string{"num"}},
+			{labels: []string{"n"}, attrs: []c16Attr{{"flag", `false`, schema.ExpressionValue{Static: cty.False}}}, marker: "m_false", keyAttrs: []string{"flag"}},
 			{labels: []string{"n"}, attrs: []c16Attr{{"kind", `"zz"`, sv("zz")}}, unknown: true},
 			{labels: []string{"n"}, attrs: []c16Attr{{"kind", `"1"`, sv("1")}}, unknown: true},
 			{labels: []string{"n"}, attrs: []c16Attr{{"num", `2`, schema.ExpressionValue{Static: cty.NumberIntVal(2)}}, {"flag", `true`, schema.ExpressionValue{Static: cty.True}}}, unknown: true},
